@@ -26,10 +26,15 @@ func c12PickDenoms() {
 	}
 }
 
+// c12Addr: account i. With the harness parameter longaddr=1 account 1 is a 32-byte address (module-derived / interchain
+// accounts are) whose last 20 bytes are account 0's address: distinct accounts that a 20-byte view would confuse.
 func c12Addr(i int) sdk.AccAddress {
 	b := make([]byte, 20)
 	b[0] = byte(0xA0 + i)
 	b[19] = byte(i + 1)
+	if i == 1 && zz.ParamInt("longaddr", 0) == 1 {
+		return sdk.AccAddress(append([]byte("derived-acct"), c12Addr(0)...))
+	}
 	return sdk.AccAddress(b)
 }
 
